@@ -98,6 +98,7 @@ def run(rep):
     bmp_mask_decode(rep, fns)
     bmp_rle_subrect(rep, fns)
     png_interlace(rep, fns)
+    png_row_table_index(rep, fns)
     partial_rows_scan(rep, fns)
     partial_rows_lib(rep, fns)
     bmp_bit_manipulators(rep, fns)
@@ -850,6 +851,34 @@ def bmp_rle_subrect(rep, fns):
 def p12_first_call(n, suffix):
     from . import p12
     return p12.first_call(n, suffix)
+
+
+def png_row_table_index(rep, fns):
+    """S19: the whole-image (interlaced) branch of png read_rows decodes into a table of row pointers; output row y of the region is row y + top_left.y of it"""
+    rep.rule("S19 png reader::read_rows: every subscript of the row-pointer table that selects the row to be copied to output row y is y + _settings._top_left.y "
+             "(a subscript that adds _settings._top_left.x takes the rows from the column origin)")
+    seen = False
+    for f in fns:
+        if fmt_of(f) != "png" or not f["name"].endswith("reader::read_rows") or f.get("body") is None or seen:
+            continue
+        g = R.canonize(f)
+        idx = []
+        for x, _ in R.find(g["body"], lambda x: x.get("k") in ("Subscript", "Call") and ("op" not in x or x.get("op") == "[]")):
+            k = R.key(x).replace("this.", "")
+            m = re.search(r"\[\((#\d+|%\d+) \+ (_settings\._top_left\.[xy])\)\]", k)
+            if m:
+                idx.append(m.group(2))
+        if not idx:
+            continue
+        seen = True
+        rep.count("obligations:S19")
+        bad = [i for i in idx if i.endswith(".x")]
+        if bad:
+            rep.violation("S19-row-table", "S19:png:read_rows:row table index", R.fn_where(f), {"row subscripts": idx,
+                          "example": "Adam7 png 9x8, region origin (0,1): the rows are taken from row 0 on; the result is not the crop of the full read"})
+        else:
+            rep.ok("S19-row-table", "S19:png:read_rows:row table index", idx)
+    rep.floor("obligations:S19", 1)
 
 
 def png_interlace(rep, fns):
